@@ -1,8 +1,9 @@
 -------------------------- MODULE Trace_ExecSteps --------------------------
 (***************************************************************************)
-(* Code -> spec: validates step events recorded by the hook in              *)
-(* PandasModelBase._eval_value_source (data_algebra/_verif_trace.py, guard  *)
-(* DATA_ALGEBRA_VERIF=1).  One event per operator node evaluated:           *)
+(* Code -> spec: validates step events recorded by the hooks in             *)
+(* PandasModelBase._eval_value_source and PolarsModel._compose_polars_ops   *)
+(* (data_algebra/_verif_trace.py, guard DATA_ALGEBRA_VERIF=1; Polars events *)
+(* carry backend = "polars").  One event per operator node evaluated:       *)
 (*   [kind, ok, declared, out_cols, out_rows, in_rows, group_by, n_groups,  *)
 (*    n_groups_nonnull, limit, jointype, alias, depth, seq]                 *)
 (* A trace is the post-order sequence of events of ONE evaluation.  Every   *)
@@ -32,7 +33,9 @@ Binary == {"NaturalJoinNode", "ConcatRowsNode"}
 Arity(e) == IF e.kind \in Unary THEN 1 ELSE IF e.kind \in Binary THEN 2 ELSE 0
 
 ColsLaw(e) == NoDup(e.out_cols) /\ SetOf(e.out_cols) = SetOf(e.declared)
-RowsLaw(e) ==
+\* the Polars hook reports -1 for a row count it could not observe (a lazy intermediate that does not collect alone)
+Known(e) == e.out_rows >= 0 /\ \A i \in 1..Len(e.in_rows) : e.in_rows[i] >= 0
+RowsLaw(e) == ~Known(e) \/
   CASE e.kind = "ExtendNode" -> e.out_rows = e.in_rows[1]
     [] e.kind = "ProjectNode" -> e.out_rows = (IF Len(e.group_by) = 0 THEN 1 ELSE e.n_groups)
     [] e.kind = "SelectRowsNode" -> e.out_rows <= e.in_rows[1]
